@@ -26,6 +26,7 @@ import S2.F64
 import S2.STUV
 import S2.Exact
 import S2.Pred
+import S2.PointCross
 namespace S2.Crossing
 open S2 S2.Exact S2.Pred
 
@@ -47,10 +48,13 @@ def s2Ortho (a : V3) : V3 :=
 /-- `Point.referenceDir` -/
 def referenceDir (a : V3) : V3 := s2Ortho a
 
-/-- `Point.PointCross` : `(p+op) × (op-p)`, or `p.Ortho()` (the r3 one) when that is exactly zero -/
-def pointCross (p op : V3) : V3 :=
-  let x := (p.add op).cross (op.sub p)
-  if V3.feq x zero3 then p.ortho else x
+/-- `Point.PointCross` (repaired, D60) : `(p+op) × (op-p)` when its float squared norm is at least `pointCrossMinNorm2`,
+    else the EXACT cross product converted back by `PreciseVector.Vector()`, or `p.Ortho()` (the r3 one) when the exact product
+    is zero.  One model for the whole development: `S2.EdgeNum.pointCross` (S2/PointCross.lean). -/
+abbrev pointCross (p op : V3) : V3 := EdgeNum.pointCross p op
+
+/-- `Point.PointCross` BEFORE repair D60 (exact-zero test of the float value, no exact fallback) -/
+abbrev pointCrossOld (p op : V3) : V3 := EdgeNum.pointCrossOld p op
 
 /-! ### EdgeCrosser pieces as pure functions of the crosser fields -/
 
